@@ -45,6 +45,22 @@ Theorem C19_gen_value : forall nm d ol draws m m' f,
 Proof. exact gen_attrs_in_domain. Qed.
 Print Assumptions C19_gen_value.
 
+(* the operation refuses a domain without elements and without ranges, so an accepted call had something to draw
+   from; the [GNone] case of [in_domain] ("both lists are empty and the stored value is None"), which the statement
+   above still allows, cannot occur *)
+Theorem C19_gen_domain_nonempty : forall nm d ol draws m m',
+  gen_random_attribute nm (Some d) ol draws m = Ok m' -> dom_elems d <> [] \/ dom_ranges d <> [].
+Proof. exact gen_random_domain_nonempty. Qed.
+Print Assumptions C19_gen_domain_nonempty.
+
+Theorem C19_gen_value_strict : forall nm d ol draws m m' f,
+  ranges_ordered d -> randint_ok_pos d draws -> NoDup (names (root m)) ->
+  gen_random_attribute nm (Some d) ol draws m = Ok m' -> In f (subfeatures (root m)) -> targeted ol nm f = true ->
+  exists g, in_domain g d /\ g <> GNone /\
+    attrs_of (name f) (root m') = Some (f_attrs (info f) ++ [{| a_name := nm; a_dom := Some d; a_default := gval_aval g; a_null := VNone |}]).
+Proof. exact gen_attrs_in_domain_strict. Qed.
+Print Assumptions C19_gen_value_strict.
+
 Example C19_nonvacuous : True.
 Proof. exact I. Qed.
 Print Assumptions C19_nonvacuous.
